@@ -65,9 +65,12 @@ class UpgradedAnnotation(metaclass=abc.ABCMeta):
 
         if has_feature is None:
             return EmptyAnnotation
-        elif has_feature:
+        elif has_feature and isinstance(raw_annotation, str):
             return _PostponedAnnotation(raw_annotation, function)
         else:
+            # also an annotation of a PEP 563 function that is not source
+            # text: it was put there as an object (eg. __annotations__
+            # replaced by typing.get_type_hints' result)
             return _PreEvaluatedAnnotation(raw_annotation)
 
     @classmethod
